@@ -15,13 +15,14 @@ plus: `reinit`'s flag->snippet decision (real attributes vs hand model vs extrac
 from __future__ import annotations
 
 import concurrent.futures as cf
+import hashlib
 import itertools
 import json
 import os
 import random
 import time
 
-from ..common import LEAN, Check, Explore, Failure, lean_driver, parse_sexp, sexp
+from ..common import LEAN, Check, Explore, Failure, lean_driver, parse_sexp, run, sexp
 from ..extract import gen as xgen
 from ..impl import c08_tables as T
 
@@ -121,24 +122,82 @@ def nontrivial(table) -> bool:
 # ---------------------------------------------------------------------------------------------------------
 # model side
 # ---------------------------------------------------------------------------------------------------------
+_NATIVE = {}
+
+
+def native_driver():
+    """The SAME driver (lean/MainC08.lean + BearVerif.Driver.C08) compiled with the toolchain's `leanc` instead of being
+    interpreted by `lean --run` (DESIGN §5 allows either): same line protocol, ~50x the throughput. Objects are cached
+    per C-source hash under lean/.lake/build/c08bin; None (-> interpreted driver) whenever anything fails."""
+    if 'exe' in _NATIVE:
+        return _NATIVE['exe']
+    _NATIVE['exe'] = None
+    try:
+        lean_driver([sexp(['c08', 'kind', 'false', 'false', 'false'])], 'C08')      # lake build of the driver (emits the .c files)
+        ir, out = LEAN / '.lake/build/ir', LEAN / '.lake/build/c08bin'
+        out.mkdir(parents=True, exist_ok=True)
+        mods = ['BearVerif/Driver/C08', 'BearVerif/Core/Gen', 'BearVerif/Extracted/Gen', 'BearVerif/Core/Sexp', 'BearVerif/Core/Loop']
+        srcs = [ir / f'{m}.c' for m in mods]
+        main_c = out / 'MainC08.c'
+        stamp = hashlib.sha1((LEAN / 'MainC08.lean').read_bytes() + b''.join(f.read_bytes() for f in srcs)).hexdigest()
+        exe = out / f'c08driver_{stamp[:16]}'
+        if not exe.exists():
+            rc, _, err = run(['lake', 'env', 'lean', '-c', str(main_c), 'MainC08.lean'], cwd=LEAN, timeout=900)
+            if rc != 0:
+                raise RuntimeError(err[-500:])
+            objs = []
+            for f in [main_c, *srcs]:
+                h = hashlib.sha1(f.read_bytes()).hexdigest()[:16]
+                o = out / f'{f.stem}_{h}.o'
+                if not o.exists():
+                    rc, _, err = run(['leanc', '-O1', '-c', '-o', str(o), str(f)], cwd=LEAN, timeout=900)
+                    if rc != 0:
+                        raise RuntimeError(err[-500:])
+                objs.append(str(o))
+            tmp = out / f'.{exe.name}.{os.getpid()}'
+            rc, _, err = run(['leanc', '-o', str(tmp), *objs], cwd=LEAN, timeout=900)
+            if rc != 0:
+                raise RuntimeError(err[-500:])
+            os.replace(tmp, exe)
+        rc, o, _ = run([str(exe)], input=sexp(['c08', 'kind', 'true', 'false', 'false']) + '\n', timeout=60)
+        if rc == 0 and o.startswith('(ok '):
+            _NATIVE['exe'] = str(exe)
+    except Exception as e:      # noqa: BLE001 — any problem means: use the interpreted driver
+        _NATIVE['why'] = str(e)[-300:]
+    return _NATIVE['exe']
+
+
+def drive(lines):
+    exe = native_driver()
+    if exe is None:
+        return lean_driver(lines, 'C08')
+    rc, out, err = run([exe], input='\n'.join(lines) + '\n', timeout=3000)
+    res = out.splitlines()
+    if rc != 0 or len(res) != len(lines):
+        raise RuntimeError(f'native model driver rc={rc} lines={len(res)}/{len(lines)} {err[-500:]}')
+    return res
+
+
 def model_automata(cases):
-    """cases: [(kind, variant, table)] -> [{plain, spec, wrapped}] from the Lean driver (parallel driver processes)."""
+    """cases: [(kind, variant, table)] -> [{plain, spec, wrapped}] from the Lean driver (parallel driver processes);
+    identical requests (variants sharing a model) are sent once."""
     lines = [sexp(['c08', 'aut', k, *T.VARIANTS[k][v], t, OPS[k]]) for k, v, t in cases]
     if not lines:
         return []
-    lean_driver([sexp(['c08', 'kind', 'false', 'false', 'false'])], 'C08')      # builds the driver once
-    nchunk = max(1, min(WORKERS, len(lines) // 40 or 1))
-    size = (len(lines) + nchunk - 1) // nchunk
-    chunks = [lines[i:i + size] for i in range(0, len(lines), size)]
+    uniq = list(dict.fromkeys(lines))
+    native_driver()
+    nchunk = max(1, min(WORKERS, len(uniq) // 40 or 1))
+    size = (len(uniq) + nchunk - 1) // nchunk
+    chunks = [uniq[i:i + size] for i in range(0, len(uniq), size)]
     with cf.ThreadPoolExecutor(max_workers=len(chunks)) as ex:
-        outs = list(ex.map(lambda ch: lean_driver(ch, 'C08'), chunks))
-    res = []
-    for line in itertools.chain.from_iterable(outs):
+        outs = list(ex.map(drive, chunks))
+    got = {}
+    for req, line in zip(uniq, itertools.chain.from_iterable(outs)):
         p = parse_sexp(line)
         if p[0] != 'ok':
             raise RuntimeError(f'model driver refused a request: {line[:200]}')
-        res.append({a[0]: a[1] for a in p[1]})
-    return res
+        got[req] = {a[0]: a[1] for a in p[1]}
+    return [got[req] for req in lines]
 
 
 # ---------------------------------------------------------------------------------------------------------
@@ -322,7 +381,7 @@ def kind_checks(ex: Explore):
         fl = f.__code__.co_flags
         flags[k] = [bool(fl & inspect.CO_COROUTINE), bool(fl & inspect.CO_GENERATOR), bool(fl & inspect.CO_ASYNC_GENERATOR)]
         lines.append(sexp(['c08', 'kind', *flags[k]]))
-    resp = [dict((a[0], a[1]) for a in parse_sexp(line)[1]) for line in lean_driver(lines, 'C08')]
+    resp = [dict((a[0], a[1]) for a in parse_sexp(line)[1]) for line in drive(lines)]
     report = {}
     for (k, f), m in zip(samples.items(), resp):
         d = BeartypeCallDecorFuncData()
@@ -374,22 +433,26 @@ def plan(tier: str, seed: int, scale: float = 1.0):
     for kind in T.KINDS:
         variants = list(T.VARIANTS[kind])
         # exhaustive small scope: every table with 1 yield point over the full reaction alphabet (incl. yield-on-exit)
-        for t in exhaustive_tables(kind, 1, 'full', with_yield_on_exit=True):
-            cases.append((kind, PRIMARY[kind], t, 4 if quick else 5, None))
+        one = list(exhaustive_tables(kind, 1, 'full', with_yield_on_exit=True))
         if quick:
-            for t in rng.sample(list(exhaustive_tables(kind, 2, 'full')), int(250 * scale)):
+            deep = set(rng.sample(range(len(one)), int(40 * scale)))
+            for i, t in enumerate(one):
+                cases.append((kind, PRIMARY[kind], t, 4 if i in deep else 3, None))
+            for t in rng.sample(list(exhaustive_tables(kind, 2, 'full')), int(150 * scale)):
                 cases.append((kind, rng.choice(variants), t, 3, _long_seqs(rng, kind, 12)))
         else:
+            for t in one:
+                cases.append((kind, PRIMARY[kind], t, 5, None))
             for t in exhaustive_tables(kind, 2, 'full'):
                 cases.append((kind, PRIMARY[kind], t, 4, None))
             for t in exhaustive_tables(kind, 3, 'small'):
                 for v in variants:
                     cases.append((kind, v, t, 4, None))
-            for t in exhaustive_tables(kind, 1, 'full', with_yield_on_exit=True):
+            for t in one:
                 for v in variants:
                     if v != PRIMARY[kind]:
                         cases.append((kind, v, t, 4, None))
-        for _ in range(int((700 if quick else 6000) * scale)):
+        for _ in range(int((450 if quick else 6000) * scale)):
             cases.append((kind, rng.choice(variants), random_table(rng, kind), 3, _long_seqs(rng, kind, 25)))
     return cases
 
@@ -457,6 +520,7 @@ def explore(ck: Check, tier: str, seed: int, scale: float = 1.0) -> Explore:
         'oracle_failures_matching_the_model_counterexample_family': predicted,
         'failure_signatures': [list(map(str, s)) for s in groups],
         'operation_alphabets': {k: [op_str(k, o) for o in v] for k, v in OPS.items()},
+        'model_driver': 'native (leanc-compiled MainC08)' if _NATIVE.get('exe') else 'interpreted (lean --run): ' + _NATIVE.get('why', ''),
         'model_driver_seconds': round(t_model, 1), 'exploration_seconds': round(time.time() - t0, 1)})
     ex.samples = [{'kind': k, 'variant': v, 'table': table_str(t), 'sequence_length': L} for k, v, t, L, _ in
                   (cases[0], cases[len(cases) // 2], cases[-1])]
